@@ -222,8 +222,8 @@ theorem readPiece_tail : ∀ (max : Nat) (body : Bytes), 10 ∉ body →
     have hr : 10 ∉ r := fun e => h (by simp [e])
     simp [readPiece, hc, readPiece_tail m r hr]
 
-theorem joinPieces_done (max f : Nat) (line s : Bytes) (h : line.getLast? = some 10) :
-    joinPieces max f line s = (line, s) := by
+theorem joinPieces_done (max : Nat) (drops : Bool) (f : Nat) (line s : Bytes) (h : line.getLast? = some 10) :
+    joinPieces max drops f line s = (line, s) := by
   cases f <;> simp [joinPieces, h]
 
 theorem getLast?_append_ne (line piece : Bytes) (hp : piece ≠ []) (h : 10 ∉ piece) :
@@ -238,9 +238,9 @@ theorem getLast?_append_ne (line piece : Bytes) (hp : piece ≠ []) (h : 10 ∉ 
     subst e
     exact h (List.mem_of_getLast? hg)
 
-theorem joinPieces_line (max : Nat) (hmax : 0 < max) : ∀ (f : Nat) (line body rest : Bytes),
+theorem joinPieces_line (max : Nat) (drops : Bool) (hmax : 0 < max) : ∀ (f : Nat) (line body rest : Bytes),
     10 ∉ body → line.getLast? ≠ some 10 → body.length + 1 ≤ f →
-    joinPieces max f line (body ++ 10 :: rest) = (line ++ body ++ [10], rest)
+    joinPieces max drops f line (body ++ 10 :: rest) = (line ++ body ++ [10], rest)
   | 0, _, _, _, _, _, hf => by omega
   | f + 1, line, body, rest, hb, hl, hf => by
     unfold joinPieces
@@ -263,12 +263,13 @@ theorem joinPieces_line (max : Nat) (hmax : 0 < max) : ∀ (f : Nat) (line body 
       have hl' : (line ++ body.take max).getLast? ≠ some 10 :=
         getLast?_append_ne _ _ htk (fun e => hb (List.mem_of_mem_take e))
       have hf' : (body.drop max).length + 1 ≤ f := by simp; omega
-      rw [joinPieces_line max hmax f _ _ rest hb' hl' hf']
+      rw [joinPieces_line max drops hmax f _ _ rest hb' hl' hf']
       simp [List.append_assoc]
 
-theorem joinPieces_tail (max : Nat) (hmax : 0 < max) : ∀ (f : Nat) (line body : Bytes),
+/-- End of input inside a line: the unfinished text is kept (`drops = false`) or given up. -/
+theorem joinPieces_tail (max : Nat) (drops : Bool) (hmax : 0 < max) : ∀ (f : Nat) (line body : Bytes),
     10 ∉ body → line.getLast? ≠ some 10 → body.length + 1 ≤ f →
-    joinPieces max f line body = (line ++ body, [])
+    joinPieces max drops f line body = (if drops then [] else line ++ body, [])
   | 0, _, _, _, _, hf => by omega
   | f + 1, line, body, hb, hl, hf => by
     unfold joinPieces
@@ -285,41 +286,40 @@ theorem joinPieces_tail (max : Nat) (hmax : 0 < max) : ∀ (f : Nat) (line body 
         getLast?_append_ne _ _ htk (fun e => hb (List.mem_of_mem_take e))
       have hpos : 0 < body.length := List.length_pos_iff.mpr hbne
       have hf' : (body.drop max).length + 1 ≤ f := by simp; omega
-      rw [joinPieces_tail max hmax f _ _ hb' hl' hf']
+      rw [joinPieces_tail max drops hmax f _ _ hb' hl' hf']
       simp [List.append_assoc]
 
-theorem readLine_line (max : Nat) (hmax : 0 < max) (body rest : Bytes) (hb : 10 ∉ body) :
-    readLine max (body ++ 10 :: rest) = (body ++ [10], rest) := by
+theorem readLine_line (max : Nat) (drops : Bool) (hmax : 0 < max) (body rest : Bytes) (hb : 10 ∉ body) :
+    readLine max drops (body ++ 10 :: rest) = (body ++ [10], rest) := by
   unfold readLine
-  rw [joinPieces_line max hmax _ [] body rest hb (by simp) (by simp)]
+  rw [joinPieces_line max drops hmax _ [] body rest hb (by simp) (by simp)]
   simp
 
-theorem readLine_tail (max : Nat) (hmax : 0 < max) (body : Bytes) (hb : 10 ∉ body) :
-    readLine max body = (body, []) := by
+theorem readLine_tail (max : Nat) (drops : Bool) (hmax : 0 < max) (body : Bytes) (hb : 10 ∉ body) :
+    readLine max drops body = (if drops then [] else body, []) := by
   unfold readLine
-  rw [joinPieces_tail max hmax _ [] body hb (by simp) (by omega)]
+  rw [joinPieces_tail max drops hmax _ [] body hb (by simp) (by omega)]
   simp
 
 /-- A well-formed line: a body without newline, then the newline. -/
 def IsLine (l : Bytes) : Prop := ∃ b, l = b ++ [10] ∧ 10 ∉ b
 
-theorem rawLinesAux_lines (max : Nat) (hmax : 0 < max) : ∀ (ls : List Bytes) (f : Nat) (tail : Bytes),
-    (∀ l ∈ ls, IsLine l) → 10 ∉ tail → ls.length + (if tail = [] then 0 else 1) ≤ f →
-    rawLinesAux max f (ls.flatten ++ tail) = ls ++ (if tail = [] then [] else [tail])
+/-- What the helper reads from complete lines followed by an unterminated tail: the lines, and
+the tail as one more "line" unless it is empty or the helper gives unfinished lines up. -/
+theorem rawLinesAux_lines (max : Nat) (drops : Bool) (hmax : 0 < max) : ∀ (ls : List Bytes) (f : Nat) (tail : Bytes),
+    (∀ l ∈ ls, IsLine l) → 10 ∉ tail → ls.length + 1 ≤ f →
+    rawLinesAux max drops f (ls.flatten ++ tail) = ls ++ (if tail = [] ∨ drops = true then [] else [tail])
   | [], f, tail, _, ht, hf => by
     cases f with
-    | zero =>
-      have : tail = [] := by
-        by_cases h : tail = []
-        · exact h
-        · simp [h] at hf
-      subst this; simp [rawLinesAux]
+    | zero => omega
     | succ f =>
-      simp only [List.flatten_nil, List.nil_append, rawLinesAux, readLine_tail max hmax tail ht]
+      simp only [List.flatten_nil, List.nil_append, rawLinesAux, readLine_tail max drops hmax tail ht]
       by_cases h : tail = []
-      · simp [h]
-      · simp only [h, if_false]
-        cases f <;> simp [rawLinesAux, readLine_tail max hmax [] (by simp)]
+      · subst h; cases drops <;> simp
+      · cases drops
+        · simp only [Bool.false_eq_true, if_false, h, or_self, List.nil_append]
+          cases f <;> simp [rawLinesAux, readLine_tail max false hmax [] (by simp)]
+        · simp
   | l :: ls, f, tail, hl, ht, hf => by
     obtain ⟨b, rfl, hb⟩ := hl l (by simp)
     cases f with
@@ -327,17 +327,17 @@ theorem rawLinesAux_lines (max : Nat) (hmax : 0 < max) : ∀ (ls : List Bytes) (
     | succ f =>
       have hs : ((b ++ [10]) :: ls).flatten ++ tail = b ++ 10 :: (ls.flatten ++ tail) := by simp
       rw [hs]
-      simp only [rawLinesAux, readLine_line max hmax b _ hb]
+      simp only [rawLinesAux, readLine_line max drops hmax b _ hb]
       have : b ++ [10] ≠ [] := by simp
       simp only [this, if_false]
-      rw [rawLinesAux_lines max hmax ls f tail (fun l h => hl l (by simp [h])) ht (by simp at hf; omega)]
+      rw [rawLinesAux_lines max drops hmax ls f tail (fun l h => hl l (by simp [h])) ht (by simp at hf; omega)]
       simp
 
-theorem rawLines_lines (max : Nat) (hmax : 0 < max) (ls : List Bytes) (tail : Bytes)
+theorem rawLines_lines (max : Nat) (drops : Bool) (hmax : 0 < max) (ls : List Bytes) (tail : Bytes)
     (hl : ∀ l ∈ ls, IsLine l) (ht : 10 ∉ tail) :
-    rawLines max (ls.flatten ++ tail) = ls ++ (if tail = [] then [] else [tail]) := by
+    rawLines max drops (ls.flatten ++ tail) = ls ++ (if tail = [] ∨ drops = true then [] else [tail]) := by
   unfold rawLines
-  apply rawLinesAux_lines max hmax ls _ tail hl ht
+  apply rawLinesAux_lines max drops hmax ls _ tail hl ht
   have h1 : ls.length ≤ ls.flatten.length := by
     clear ht
     induction ls with
@@ -347,9 +347,11 @@ theorem rawLines_lines (max : Nat) (hmax : 0 < max) (ls : List Bytes) (tail : By
       have := ih (fun l h => hl l (by simp [h]))
       simp only [List.flatten_cons, List.length_append, List.length_cons, List.length_nil]
       omega
-  by_cases h : tail = []
-  · simp only [h, if_true, List.length_append, List.length_nil]; omega
-  · have : 0 < tail.length := List.length_pos_iff.mpr h
-    simp only [h, if_false, List.length_append]; omega
+  simp only [List.length_append]; omega
+
+/-- Complete lines are read back as they are, whatever the helper does with an unfinished one. -/
+theorem helperLines_lines (ls : List Bytes) (hl : ∀ l ∈ ls, IsLine l) : helperLines ls.flatten = ls := by
+  have := rawLines_lines Gen.C13.READLINE_MAX Gen.C13.HELPER_DROPS_UNFINISHED_LINE (by decide) ls [] hl (by simp)
+  simpa [helperLines] using this
 
 end Sshuttle.FwDialogue
